@@ -288,6 +288,38 @@ class ParamsGenerator:
               ' sure the two tensors have the same quantization settings.'
           )
           raise RuntimeError(error_msg)
+    # A constant buffer may also back a tensor that no operator reads (e.g. a
+    # constant exported as a graph output). That tensor keeps its type, so the
+    # buffer must not be rewritten for the tensors that share it.
+    checked_tensors = {
+        id(tensor)
+        for tensors in self.buffer_to_tensors.values()
+        for tensor in tensors
+    }
+    rewriting_transformations = (
+        _QuantTrans.QUANTIZE_TENSOR,
+        _QuantTrans.ADD_DEQUANTIZE,
+    )
+    for subgraph in self.flatbuffer_model.subgraphs:
+      for tensor in subgraph.tensors:
+        if id(tensor) in checked_tensors:
+          continue
+        if self.flatbuffer_model.buffers[tensor.buffer].data is None:
+          continue
+        for sharer in self.buffer_to_tensors.get(tensor.buffer, []):
+          sharer_params = self.model_quant_results[
+              tfl_flatbuffer_utils.get_tensor_name(sharer)
+          ]
+          if any(
+              consumer.transformations[0] in rewriting_transformations
+              for consumer in sharer_params.consumers or []
+          ):
+            raise RuntimeError(
+                f'The tensors {sharer.name} and {tensor.name} share the same'
+                ' buffer, but only the former is read by an op and would be'
+                ' quantized. Please modify your quantization recipe or give'
+                ' the latter its own buffer.'
+            )
 
 
 def _compatible_tensor_transformation_params(
